@@ -231,6 +231,43 @@ def record_pure(tid: str, tt: list[list[int]], seed: int, kinds: list[str], per_
                 e["pnvars"], e["pn"] = pn_project(pn1, names)
             emit(e, call)
 
+    if "sdpn" in kinds:
+        # the nets a succession diagram keeps for its nodes (node_percolated_petri_net): computed from the global net, or
+        # from the cached net of a parent node - requested here in the orders that exercise both paths
+        from biobalm import SuccessionDiagram
+        try:
+            sd = SuccessionDiagram(net)
+            sd.expand_bfs(bfs_level_limit=2, size_limit=24)
+            sd_ok = True
+        except Exception:  # noqa: BLE001
+            sd_ok = False
+        if sd_ok:
+            order = []
+            for p_id in list(sd.expanded_ids())[:4]:
+                kids = sd.node_successors(p_id)
+                mode = rng.choice(["cached-parent", "cached-parent", "global", "explicit-uncached"])
+                order.append((p_id, kids[:3], mode))
+            for p_id, kids, mode in order:
+                for c_id in kids:
+                    e = _default(n)
+                    e["k"] = "restrict"
+                    e["sp"] = vec(sd.node_data(c_id)["space"], names)
+                    e["sp0meet"] = list(e["sp"])
+                    e["pnvars0"] = list(range(1, n + 1))
+
+                    def call(e, p_id=p_id, c_id=c_id, mode=mode):
+                        if mode == "cached-parent":
+                            sd.node_percolated_petri_net(p_id, compute=True)
+                            pn1 = sd.node_percolated_petri_net(c_id, compute=True, parent_id=p_id)
+                        elif mode == "explicit-uncached":
+                            sd.node_data(p_id)["percolated_petri_net"] = None
+                            pn1 = sd.node_percolated_petri_net(c_id, compute=True, parent_id=p_id)
+                        else:
+                            pn1 = sd.node_percolated_petri_net(c_id, compute=True)
+                        e["pnvars"], e["pn"] = pn_project(pn1, names)
+                        sd.node_data(c_id)["percolated_petri_net"] = None     # the next request recomputes
+                    emit(e, call)
+
     if "percnet" in kinds:
         for _ in range(per_kind):
             e = _default(n)
